@@ -162,6 +162,14 @@ package core
 //@   nopanic own when rv_kind(obj) == 22 && rv_canset(rv_elem(obj)) && (rv_kind(rv_elem(obj)) == rv_kind(V) || (ncls(rv_kind(rv_elem(obj))) != 0 && rv_kind(rv_elem(obj)) != 12 && ncls(rv_kind(V)) != 0 && rv_kind(V) != 12))
 //@   modifies nothing
 
+// index given by a value of any integer kind (C03)
+//@ func GetIndex
+//@   props C03 C20
+//@   arith int unchecked
+//@   ensures [C03] value: iK(rv_kind(v)) && inK(rv_int(v), 2) ==> result == rv_int(v)
+//@   modifies nothing
+//@   nopanic own when iK(rv_kind(v))
+
 // element / key coercion for containers (C03): within a numeric class the value is converted to the target kind
 // (fit / ffit: cut to the target's width, as a Go conversion does); a value of the target's kind is passed unchanged
 //@ func GetWantedValue
